@@ -25,6 +25,9 @@ pub struct C04 {
     v_total: u64,
     /// per case: frames chosen greedily so that every enum-typed field path and every branch token the model reaches occurs
     covers: std::sync::Mutex<std::collections::HashMap<usize, std::sync::Arc<Vec<Frame>>>>,
+    /// E/L enumeration: rows (case index, cover frame number, first index, E slots, L slots)
+    table_quick: std::sync::OnceLock<(Vec<(usize, usize, u64, u64, u64)>, u64)>,
+    table_thorough: std::sync::OnceLock<(Vec<(usize, usize, u64, u64, u64)>, u64)>,
 }
 
 fn width(ty: &str) -> Option<usize> {
@@ -127,7 +130,7 @@ impl C04 {
             }
         }
         let v_total = vsites.iter().map(|x| x.3.len() as u64).sum();
-        C04 { ctx, cases, opsets, vsites, v_total, covers: std::sync::Mutex::new(std::collections::HashMap::new()) }
+        C04 { ctx, cases, opsets, vsites, v_total, covers: std::sync::Mutex::new(std::collections::HashMap::new()), table_quick: std::sync::OnceLock::new(), table_thorough: std::sync::OnceLock::new() }
     }
     fn o_sites(&self) -> u64 {
         self.opsets.iter().map(|s| if s.0.is_some() { 256 } else { 0x600 }).sum()
@@ -161,12 +164,8 @@ impl C04 {
             return v.clone();
         }
         let case = &self.cases[ci];
-        let mut kept: Vec<Frame> = Vec::new();
-        let mut seen: std::collections::BTreeSet<String> = std::collections::BTreeSet::new();
-        for k in 0..30u64 {
-            if kept.len() >= 6 {
-                break;
-            }
+        let mut cands: Vec<(Frame, Vec<String>)> = Vec::new();
+        for k in 0..32u64 {
             let mut wl = Rng::new(crate::rng::run_seed(master.wrapping_add(k << 24), &case.label(), 0xC04C));
             let knobs = match k % 4 {
                 1 => Knobs { take_optional: Some(true), ..Knobs::default() },
@@ -177,23 +176,85 @@ impl C04 {
             if f.plain.len() > 8000 {
                 continue;
             }
-            let mut tokens: Vec<String> = f.shape.split(',').map(|t| t.to_string()).collect();
+            // tokens: branch / enumerator choices of the frame, and every enum-typed field path (array indices normalised)
+            // together with the enumerator tokens of the frame (the same path can sit in different arms of the reader)
+            let shape_tokens: Vec<String> = f.shape.split(',').filter(|t| !t.is_empty()).map(|t| t.to_string()).collect();
+            let mut tokens = shape_tokens.clone();
             for x in f.fields.iter().filter(|x| matches!(x.kind, FKind::Enum { .. })) {
                 let norm: String = x.path.chars().filter(|c| !c.is_ascii_digit()).collect();
                 tokens.push(format!("E:{}", norm));
             }
-            let adds = tokens.iter().any(|t| !seen.contains(t));
-            if !kept.is_empty() && !adds {
-                continue;
+            cands.push((f, tokens));
+        }
+        let mut kept: Vec<Frame> = Vec::new();
+        let mut seen: std::collections::BTreeSet<String> = std::collections::BTreeSet::new();
+        while kept.len() < 8 && !cands.is_empty() {
+            // best first: the candidate that adds the most unseen tokens
+            let (bi, gain) = cands.iter().enumerate().map(|(i, (_, t))| (i, t.iter().filter(|x| !seen.contains(*x)).collect::<std::collections::BTreeSet<_>>().len())).max_by_key(|(i, g)| (*g, usize::MAX - *i)).unwrap();
+            if gain == 0 && !kept.is_empty() {
+                break;
             }
-            for t in tokens {
-                seen.insert(t);
+            let (f, t) = cands.remove(bi);
+            for x in t {
+                seen.insert(x);
             }
             kept.push(f);
         }
         let v = std::sync::Arc::new(kept);
         self.covers.lock().unwrap().insert(ci, v.clone());
         v
+    }
+    fn l_lengths(size: usize) -> Vec<usize> {
+        // lengths next to the right one first, then the rest
+        let mut lens: Vec<usize> = Vec::new();
+        for d in 1..=(size + 8) {
+            if size >= d {
+                lens.push(size - d);
+            }
+            if d <= 8 {
+                lens.push(size + d);
+            }
+        }
+        lens
+    }
+    fn vals_per_field(tier: Tier) -> u64 {
+        match tier {
+            Tier::Quick => 3,
+            Tier::Thorough => 6,
+        }
+    }
+    fn table(&self, tier: Tier) -> &(Vec<(usize, usize, u64, u64, u64)>, u64) {
+        let master = env_u64("VERIF_SEED", 1);
+        let cell = match tier {
+            Tier::Quick => &self.table_quick,
+            Tier::Thorough => &self.table_thorough,
+        };
+        cell.get_or_init(|| {
+            let mut rows = Vec::new();
+            let mut total = 0u64;
+            for ci in 0..self.cases.len() {
+                let case = &self.cases[ci];
+                let model = model_for(&self.ctx, case);
+                let fixed = if case.login.is_none() { model.message(&case.name).and_then(|c| fixed_size(model, c, 0)) } else { None };
+                let cov = self.cover(ci, master);
+                for (k, f) in cov.iter().enumerate() {
+                    let nf = f.fields.iter().filter(|x| matches!(x.kind, FKind::Enum { .. })).count().min(96) as u64;
+                    let e = nf * Self::vals_per_field(tier);
+                    let l = match fixed {
+                        Some(size) if k == 0 && f.plain.len() == size => (Self::l_lengths(size).len() as u64).min(match tier {
+                            Tier::Quick => 40,
+                            Tier::Thorough => 400,
+                        }),
+                        _ => 0,
+                    };
+                    if e + l > 0 {
+                        rows.push((ci, k, total, e, l));
+                        total += e + l;
+                    }
+                }
+            }
+            (rows, total)
+        })
     }
 }
 
@@ -205,7 +266,7 @@ impl Check for C04 {
         "fault_enumeration"
     }
     fn rule(&self) -> String {
-        format!("Fault sites are enumerated from the model peer's field maps. E: every enum-typed field (incl. upcast ones and ones nested in structs, arrays, conditional branches and compressed regions) of a canonical frame of every message gets, at its full wire width and in place, undeclared values (neighbours of declared values, the maximum of the width, and for upcast fields aliases of declared values modulo 2^8 and 2^16); the reader must fail with an enum error reporting exactly that number ({} slots per message and shape; the shapes of a message are chosen greedily out of 30 model-peer candidates so that every enum-typed field path and every branch token the model reaches occurs in one of them). L: every message the model computes as constant-sized gets every body length 0..size+8 except the right one (bytes removed / zero bytes appended, header consistent); the reader must fail. O: every opcode value 0..0x600 not defined for the direction and expansion (and every undefined first byte for the 12 login opcode enums), plus aliases of the expected message's opcode above 16 bits for client messages, in front of short bodies; the reader must fail with an opcode error reporting that number. Every site is driven through the opcode-enum reader and the typed expect helper, blocking/tokio/async-std rotated per site (thorough: more shapes), over a scheduled SimPipe. Non-trivial: the altered frame was derived from a frame the library accepts unaltered; distinct = distinct event-log hashes.", ESLOTS)
+        format!("Fault sites are enumerated from the model peer's field maps. E: every enum-typed field (incl. upcast ones and ones nested in structs, arrays, conditional branches and compressed regions) of a canonical frame of every message gets, at its full wire width and in place, undeclared values (neighbours of declared values, the maximum of the width, and for upcast fields aliases of declared values modulo 2^8 and 2^16); the reader must fail with an enum error reporting exactly that number (every enum field of every cover frame of the message; the cover frames - up to 8 - are chosen best-first out of 32 model-peer candidates so that every enum-typed field path and every branch / enumerator token the model reaches occurs in one of them; {} was the fixed slot count of the first build). L: every message the model computes as constant-sized gets every body length 0..size+8 except the right one (bytes removed / zero bytes appended, header consistent); the reader must fail. O: every opcode value 0..0x600 not defined for the direction and expansion (and every undefined first byte for the 12 login opcode enums), plus aliases of the expected message's opcode above 16 bits for client messages, in front of short bodies; the reader must fail with an opcode error reporting that number. Every site is driven through the opcode-enum reader and the typed expect helper, blocking/tokio/async-std rotated per site (thorough: more shapes), over a scheduled SimPipe. Non-trivial: the altered frame was derived from a frame the library accepts unaltered; distinct = distinct event-log hashes.", ESLOTS)
     }
     fn assumptions(&self) -> Vec<String> {
         vec![
@@ -220,11 +281,7 @@ impl Check for C04 {
                "not_exercised": ["encrypted entry points (same body parsers)"]})
     }
     fn plan(&self, tier: Tier) -> (u64, u64) {
-        let shapes = match tier {
-            Tier::Quick => 3,
-            Tier::Thorough => 8,
-        };
-        (self.cases.len() as u64 * ESLOTS * shapes + self.o_sites() + self.v_total, match tier {
+        (self.table(tier).1 + self.o_sites() + self.v_total, match tier {
             Tier::Quick => env_u64("VERIF_C04_RUNS", 20_000),
             Tier::Thorough => env_u64("VERIF_C04_RUNS", 1_000_000),
         })
@@ -353,53 +410,36 @@ impl Check for C04 {
             }
         }
         // ---------------- E / L sites
-        let (case, slot, shape, case_idx) = if i < e_total {
-            let ci = i / ESLOTS;
-            let n = self.cases.len() as u64;
-            (self.cases[(ci % n) as usize].clone(), Some(i % ESLOTS), ci / n, Some((ci % n) as usize))
-        } else {
-            (cf.pick(&self.cases).clone(), None, seed, None)
-        };
-        // enumerated shapes come from the greedy cover of the case (every enum field path, every branch token); beyond
-        // the cover, and in the sampled part, plain draws
-        let from_cover = case_idx.and_then(|ci| {
+        // enumerated: row of the table -> (case, cover frame, E slot or L slot); sampled: a random case, a plain draw
+        let (case, f, eslot, lslot) = if i < e_total {
+            let (rows, _) = self.table(tier);
+            let r = rows.partition_point(|row| row.2 + row.3 + row.4 <= i);
+            let (ci, k, first, e, _l) = rows[r];
+            let s = i - first;
             let cov = self.cover(ci, master);
-            cov.get(shape as usize).cloned()
-        });
-        let f = match from_cover {
-            Some(f) => f,
-            None => {
-                let mut wl = Rng::new(crate::rng::run_seed(master.wrapping_add(shape), &case.label(), 0xC04));
-                let Some(f) = encode_case(&self.ctx, &case, &mut wl, &Knobs::default()) else {
-                    return json!({"label": case.label(), "case": case_json(&case), "skip": "unmodelled"});
-                };
-                f
-            }
+            (self.cases[ci].clone(), cov[k].clone(), if s < e { Some(s) } else { None }, if s >= e { Some(s - e) } else { None })
+        } else {
+            let case = cf.pick(&self.cases).clone();
+            let mut wl = Rng::new(crate::rng::run_seed(master.wrapping_add(seed), &case.label(), 0xC04));
+            let Some(f) = encode_case(&self.ctx, &case, &mut wl, &Knobs::default()) else {
+                return json!({"label": case.label(), "case": case_json(&case), "skip": "unmodelled"});
+            };
+            (case, f, None, None)
         };
+        let enumerated = i < e_total;
         let orig = intact_stream(&case, &f);
         let enum_fields: Vec<(usize, &FieldInfo)> = f.fields.iter().enumerate().filter(|(_, x)| matches!(x.kind, FKind::Enum { .. })).collect();
         let model = model_for(&self.ctx, &case);
         let fixed = if case.login.is_none() { model.message(&case.name).and_then(|c| fixed_size(model, c, 0)) } else { None };
         let entry = if i % 2 == 0 { "enum".to_string() } else { format!("expect:{}", case.name) };
         // E site?
-        let e_pick = match slot {
-            Some(s) => {
-                let fi = (s / 3) as usize;
-                if fi < enum_fields.len().min(12) && s < 36 {
-                    // frames with more than 12 enum fields (arrays of structs): the window of 12 rotates with the slot parity of the shape
-                    let fi = if enum_fields.len() > 12 { (fi + (shape as usize) * 12) % enum_fields.len() } else { fi };
-                    Some((fi, (s % 3) as usize))
-                } else {
-                    None
-                }
-            }
-            None => {
-                if !enum_fields.is_empty() && cf.chance(3, 4) {
-                    Some((cf.below(enum_fields.len() as u64) as usize, cf.below(10) as usize))
-                } else {
-                    None
-                }
-            }
+        let vpf = Self::vals_per_field(tier);
+        let e_pick = if enumerated {
+            eslot.map(|s| ((s / vpf) as usize, (s % vpf) as usize)).filter(|(fi, _)| *fi < enum_fields.len())
+        } else if !enum_fields.is_empty() && cf.chance(3, 4) {
+            Some((cf.below(enum_fields.len() as u64) as usize, cf.below(10) as usize))
+        } else {
+            None
         };
         if let Some((fi, vi)) = e_pick {
             let (_, fld) = enum_fields[fi];
@@ -431,20 +471,11 @@ impl Check for C04 {
         // L site?
         if let Some(size) = fixed {
             if f.plain.len() == size {
-                // lengths next to the right one first, then the rest
-                let mut lens: Vec<usize> = Vec::new();
-                for d in 1..=(size + 8) {
-                    if size >= d {
-                        lens.push(size - d);
-                    }
-                    if d <= 8 {
-                        lens.push(size + d);
-                    }
-                }
-                let pick = match slot {
-                    Some(s) if s >= 36 => Some(((s - 36) as usize + 12 * (shape as usize)) % lens.len()),
-                    Some(_) => None,
-                    None => Some(cf.below(lens.len() as u64) as usize),
+                let lens = Self::l_lengths(size);
+                let pick = if enumerated {
+                    lslot.map(|s| s as usize).filter(|s| *s < lens.len())
+                } else {
+                    Some(cf.below(lens.len() as u64) as usize)
                 };
                 if let Some(p) = pick {
                     let l = lens[p];
